@@ -14,8 +14,44 @@ CFG = dict(
              "Go driver harness/C25 (overlay build, tag verif) with the export shim zz_verif_c25.go (VerifPull = pullNextBatch + dropLockAndSendBatch)"],
     assumptions=["the consumer's pull-and-deliver is atomic w.r.t. producer callbacks (batch content and liveResourceKeys are fixed under the lock in pullNextBatch, so the sink's stream is unaffected by interleaving)",
                  "Go map iteration order over liveKeysNotSeenSinceReconnect is an explicit, universally quantified parameter of the model",
-                 "model.Key values are compared by Go equality (keys are abstract naturals in the model)"],
+                 "model.Key values are compared by Go equality (keys are abstract naturals in the model)",
+                 "syncclient calls OnTyphaConnectionRestarted() before delivering anything from a new connection (checked only at source level by props/C25.py:_restart_call_check; the client's network loop is not executed)"],
 )
+
+import os, re
+
+def _restart_call_check(ctx, lines):
+    """The theorems assume the client announces a new connection with OnTyphaConnectionRestarted() before anything
+    from that connection reaches the buffer.  Source-level (translation-style) check of that one fact in
+    typha/pkg/syncclient/sync_client.go: inside SyncerClient.Start's reconnect loop the call is present and precedes
+    the startOneConnection call of the loop.  Silent when the function cannot be located (refactor)."""
+    path = os.path.join(ctx.repo, "typha/pkg/syncclient/sync_client.go")
+    try:
+        src = open(path).read()
+    except OSError:
+        return []
+    src = re.sub(r"//[^\n]*", "", src)
+    m = re.search(r"func \(s \*SyncerClient\) Start\(.*?\n}\n", src, re.S)
+    if not m:
+        ctx.log("C25: SyncerClient.Start not found; restart-call check skipped")
+        return []
+    body = m.group(0)
+    loop = body.find("for cxt.Err() == nil")
+    if loop < 0:
+        ctx.log("C25: reconnect loop not found; restart-call check skipped")
+        return []
+    tail = body[loop:]
+    call = tail.find(".OnTyphaConnectionRestarted()")
+    start = tail.find("startOneConnection(")
+    if start >= 0 and (call < 0 or call > start):
+        return [(dict(kind="restart-not-announced", file="typha/pkg/syncclient/sync_client.go",
+                      note="SyncerClient.Start reconnects (startOneConnection in the reconnect loop) without first calling "
+                           "OnTyphaConnectionRestarted() on the callbacks: the buffer then treats the new snapshot as deltas, "
+                           "resources deleted while disconnected are never removed downstream (hypothesis of c25_converges unmet)"),
+                 "")]
+    return []
+
+CFG["extra"] = _restart_call_check
 
 def run(ctx):
     return vlib.standard_flow(ctx, CFG)
